@@ -76,19 +76,12 @@ theorem ym_simple (ya : YMArgs a) (h : construct a = .ok r) : SimpleRule r := by
     · rfl
 
 /-- BYMONTHDAY clause for an arbitrary (defaulted or supplied) list without zeros -/
-theorem monthday_clause_gen (ya : YMArgs a) (d e : Int) (hd : 0 < d) (he : e < 0) :
+theorem monthday_clause_core (a : Args) (hnz : ∀ x ∈ (monthdayArg a).getD [], x ≠ 0)
+    (d e : Int) (hd : 0 < d) (he : e < 0) :
     (!(!(bymonthdayOf a).isEmpty || !(bynmonthdayOf a).isEmpty) ||
       (bymonthdayOf a).contains d || (bynmonthdayOf a).contains e) =
     (((monthdayArg a).getD []).isEmpty || ((monthdayArg a).getD []).contains d ||
       ((monthdayArg a).getD []).contains e) := by
-  have hnz : ∀ x ∈ (monthdayArg a).getD [], x ≠ 0 := by
-    unfold monthdayArg
-    split
-    · intro x hx
-      have hv := ya.valid
-      unfold DT.Valid ValidDate ValidYMD at hv
-      simp at hx; subst hx; omega
-    · exact ya.monthday_nz
   unfold bymonthdayOf bynmonthdayOf
   cases hl : monthdayArg a with
   | none => rfl
@@ -126,6 +119,20 @@ theorem monthday_clause_gen (ya : YMArgs a) (d e : Int) (hd : 0 < d) (he : e < 0
           | nil => rw [hq] at this; simp at this
           | cons _ _ => rfl
       rcases this with h | h <;> simp [h]
+
+theorem monthday_clause_gen (ya : YMArgs a) (d e : Int) (hd : 0 < d) (he : e < 0) :
+    (!(!(bymonthdayOf a).isEmpty || !(bynmonthdayOf a).isEmpty) ||
+      (bymonthdayOf a).contains d || (bynmonthdayOf a).contains e) =
+    (((monthdayArg a).getD []).isEmpty || ((monthdayArg a).getD []).contains d ||
+      ((monthdayArg a).getD []).contains e) := by
+  apply monthday_clause_core a _ d e hd he
+  unfold monthdayArg
+  split
+  · intro x hx
+    have hv := ya.valid
+    unfold DT.Valid ValidDate ValidYMD at hv
+    simp at hx; subst hx; omega
+  · exact ya.monthday_nz
 
 theorem weekday_clause_ym (ya : YMArgs a) (wd : Int) (f : Int × Int → Bool) :
     (!truthy (byweekdayOf a) || memO wd (byweekdayOf a)) =
